@@ -264,4 +264,108 @@ D14 == [parts |-> <<T("GPOS4:"), T("-ligs"), NL, T("mark M: 0@100,100 ;"), NL, T
                      bases |-> <<<<1, <<<<400, 1000>>, <<500, 1000>>>>>>, <<2, <<<<1, 2>>, <<3, 4>>>>>>>>]>>)>>]
 
 Descs == <<D1, D2, D3, D4, D5, D6, D7, D8, D9, D10, D11, D12, D13, D14>>
+
+---------------------------------------------------------------------------
+(* 3. numbers.  Wherever the grammar takes a number -- the lookup index L and the sequence    *)
+(* position P of a nested action L@P, a glyph number, the mark class, the components x, y, dx *)
+(* of a value record, the coordinates of an anchor -- the number written is either            *)
+(* represented EXACTLY in the parsed lookup list or Parse returns an error; it is never        *)
+(* wrapped or truncated to the width of the field.  NumRange is the set of values the field    *)
+(* can hold (glyph numbers: the glyphs of the font, 48 in font "nc").                          *)
+Li(s, v) == [lit |-> s, val |-> v, big |-> FALSE]
+Huge(s)  == [lit |-> s, val |-> 0, big |-> TRUE]       \* beyond TLC's integers and beyond every field
+Lits == <<Li("0", 0), Li("1", 1), Li("47", 47), Li("48", 48), Li("255", 255), Li("256", 256), Li("32767", 32767),
+          Li("32768", 32768), Li("65535", 65535), Li("65536", 65536), Li("65537", 65537), Li("70000", 70000),
+          Huge("2147483648"), Huge("4294967296"), Huge("4294967297"), Huge("1234567890123456789012345"),
+          Li("-1", -1), Li("-32768", -32768), Li("-32769", -32769), Li("-65535", -65535), Li("-65536", -65536),
+          Huge("-4294967296"), Li("+5", 5), Li("+65536", 65536)>>
+
+NumKinds == 1..10
+NumRange(k) == CASE k \in {1, 2} -> 0..65535           \* L and P of a nested action
+                 [] k = 3 -> 0..47                      \* glyph number
+                 [] k = 4 -> {0}                        \* class of the only mark: classes are numbered from 0 without gaps
+                 [] OTHER -> -32768..32767              \* value record components, anchor coordinates
+NumParts(k, lit) ==
+  CASE k = 1  -> <<T("GSUB5:"), T("A"), T("->"), T(lit \o "@0")>>
+    [] k = 2  -> <<T("GSUB5:"), T("A"), T("->"), T("1@" \o lit)>>
+    [] k = 3  -> <<T("GSUB1:"), T(lit), T("->"), T("A")>>
+    [] k = 4  -> <<T("GPOS4:"), T("mark M:"), T(lit \o "@1,2"), T(";")>>
+    [] k = 5  -> <<T("GPOS1:"), T("A"), T("->"), T("x"), T(lit)>>
+    [] k = 6  -> <<T("GPOS1:"), T("A"), T("->"), T("y"), T(lit)>>
+    [] k = 7  -> <<T("GPOS1:"), T("A"), T("->"), T("dx"), T(lit)>>
+    [] k = 8  -> <<T("GPOS3:"), T("A:"), T(lit \o ",2"), T("to"), T("3,4")>>
+    [] k = 9  -> <<T("GPOS4:"), T("mark M:"), T("0@1,2"), T(";"), T("base A:"), T("@7," \o lit), T(";")>>
+    [] k = 10 -> <<T("GPOS2:"), T("A B"), T("->"), T("x"), T("1"), T("&"), T("dx"), T(lit)>>
+NumMean(k, v) ==
+  CASE k = 1  -> <<Lk(5, {}, <<[k |-> "ctx1", map |-> <<<<1, <<[in |-> <<>>, act |-> <<Act(v, 0)>>]>>>>>>]>>)>>
+    [] k = 2  -> <<Lk(5, {}, <<[k |-> "ctx1", map |-> <<<<1, <<[in |-> <<>>, act |-> <<Act(1, v)>>]>>>>>>]>>)>>
+    [] k = 3  -> <<Lk(1, {}, <<[k |-> "single", map |-> <<<<v, 1>>>>]>>)>>
+    [] k = 4  -> <<Lk(4, {}, <<[k |-> "markbase", marks |-> <<<<13, v, <<1, 2>>>>>>, bases |-> <<>>]>>)>>
+    [] k = 5  -> <<Lk(1, {}, <<[k |-> "pos1each", map |-> <<<<1, VR(v, 0, 0)>>>>]>>)>>
+    [] k = 6  -> <<Lk(1, {}, <<[k |-> "pos1each", map |-> <<<<1, VR(0, v, 0)>>>>]>>)>>
+    [] k = 7  -> <<Lk(1, {}, <<[k |-> "pos1each", map |-> <<<<1, VR(0, 0, v)>>>>]>>)>>
+    [] k = 8  -> <<Lk(3, {}, <<[k |-> "cursive", map |-> <<<<1, <<v, 2>>, <<3, 4>>>>>>]>>)>>
+    [] k = 9  -> <<Lk(4, {}, <<[k |-> "markbase", marks |-> <<<<13, 0, <<1, 2>>>>>>, bases |-> <<<<1, <<<<7, v>>>>>>>>]>>)>>
+    [] k = 10 -> <<Lk(2, {}, <<[k |-> "pair", map |-> <<<<1, 2, <<VR(1, 0, 0), VR(0, 0, v)>>>>>>]>>)>>
+NumText(k, l) == Render([parts |-> NumParts(k, Lits[l].lit)])
+NumFits(k, l) == ~Lits[l].big /\ Lits[l].val \in NumRange(k)
+\* the law: got is the canonical lookup list parsed ("" error = accepted), perr the error text
+NumLaw(k, l, perr, got) == IF NumFits(k, l) THEN perr = "" /\ got = NumMean(k, Lits[l].val) ELSE perr # ""
+
+---------------------------------------------------------------------------
+(* 4. the line of an error.  Lines are numbered from 1; a line break ends a line and the         *)
+(* end-of-line token belongs to the line it ENDS; the end of the input lies on the line after     *)
+(* the last line break.  A parse error reports the line of the token at which it is detected:    *)
+(* the first token the parser has not accepted (the message names that token), or -- when the    *)
+(* offending token had to be read to see the error -- the token after it.  A text is a sequence  *)
+(* of pieces: tokens, line breaks ("\n" or "\r\n"), and things that are no tokens (comments).    *)
+Tk(s)   == [s |-> s, it |-> s, k |-> "tok"]
+Eol     == [s |-> "\n", it |-> "\n", k |-> "eol"]
+CrLf    == [s |-> "\r\n", it |-> "\n", k |-> "eol"]
+Skip(s) == [s |-> s, it |-> "", k |-> "skip"]
+Bad(s)  == [s |-> s, it |-> "*", k |-> "tok"]          \* an illegal character: the message quotes the lexer, any item text
+Toks(ss) == [i \in 1..Len(ss) |-> Tk(ss[i])]
+GoodLine == Toks(<<"GSUB1", ":", "A", "->", "B">>)
+
+\* erroneous lookups (without their final line break) and where the error is detected, as offsets into
+\* the lookup followed by the rest of the text: n+1 is the first piece after the lookup
+ErrCore(t) ==
+  CASE t = 1  -> Toks(<<"GSUB1", ":", "A", "->">>)                              \* right-hand side missing
+    [] t = 2  -> Toks(<<"GSUB1", ":", "A", "B", "->", "C">>)                    \* 2 glyphs -> 1 glyph
+    [] t = 3  -> Toks(<<"GSUB2", ":", "A", "->">>)
+    [] t = 4  -> Toks(<<"GSUB1", ":", "-", "foo", "A", "->", "B">>)             \* unknown flag
+    [] t = 5  -> Toks(<<"]", "A">>)                                             \* no lookup starts like this
+    [] t = 6  -> Toks(<<"GSUB5", ":", "A", "->", "1", "@">>)                    \* position missing
+    [] t = 7  -> Toks(<<"GSUB4", ":", "A", "B", "->", "C", "D">>)               \* a ligature is one glyph
+    [] t = 8  -> Toks(<<"GSUB1", ":", "A", "->", "B", ",", ",", "C", "->", "D">>)
+    [] t = 9  -> Toks(<<"GSUB1", ":", "A", "->">>) \o <<Bad("!")>>               \* illegal character
+    [] t = 10 -> Toks(<<"GPOS4", ":">>) \o <<Eol>> \o Toks(<<"mark", "M", ":", "0", "@", "1", ",", "2", ";">>) \o <<Eol>>
+                 \o Toks(<<"base", "A", ":", "@", "1", ";">>)                   \* y coordinate missing, third line
+    [] t = 11 -> Toks(<<"GPOS1", ":", "A", "->", "x">>)                         \* number missing
+    [] t = 12 -> Toks(<<"GSUB3", ":", "A", "->", "[", "B">>)                    \* set not closed
+ErrDet(t) == LET n == Len(ErrCore(t)) IN
+  CASE t = 4 -> {4, 5} [] t = 5 -> {1, 2} [] t = 8 -> {7, 8} [] t = 9 -> {5} [] t = 10 -> {n, n + 1}
+    [] OTHER -> {n + 1, n + 2}
+ErrTemplates == 1..12
+ErrPrefixes == << <<>>, <<Eol>>, <<Eol, Eol>>, <<Skip("# c"), Eol>>, GoodLine \o <<Eol>>, GoodLine \o <<CrLf>>,
+                  <<Skip("# c"), Eol, Eol>> \o GoodLine \o <<Skip("# d"), Eol>> >>
+ErrSuffixes == << <<>>, <<Eol>>, <<CrLf>>, <<Eol, Eol>>, <<Eol>> \o GoodLine \o <<Eol>>, <<Skip("# c"), Eol>> \o GoodLine,
+                  <<Skip("#")>> >>
+EofPiece  == [s |-> "", it |-> "EOF", k |-> "eof"]
+PastPiece == [s |-> "", it |-> "", k |-> "eof"]          \* reading on after the end of the input
+ErrSeq(t, p, x) == ErrPrefixes[p] \o ErrCore(t) \o ErrSuffixes[x] \o <<EofPiece, PastPiece>>
+\* comments are no tokens: the offsets count tokens, line breaks and the end only
+Real(seq) == SelectSeq(seq, LAMBDA e : e.k # "skip")
+LineIn(seq, j) == 1 + Cardinality({i \in 1..(j - 1) : seq[i].k = "eol"})
+ErrExpect(t, p, x) ==
+  LET seq == Real(ErrSeq(t, p, x))
+      off == Len(Real(ErrPrefixes[p]))
+  IN {<<LineIn(seq, off + d), seq[off + d].it>> : d \in {e \in ErrDet(t) : off + e <= Len(seq)}}
+ErrText(t, p, x) == LET seq == ErrSeq(t, p, x)
+                        R[i \in 0..Len(seq)] == IF i = 0 THEN "" ELSE R[i - 1] \o (IF i = 1 \/ seq[i].k = "eof" THEN "" ELSE " ") \o seq[i].s
+                    IN R[Len(seq)]
+\* the law: an error is returned and its (line, token) is one of the expected ones ("*": any token text)
+ErrLaw(t, p, x, isErr, line, item) ==
+  /\ isErr
+  /\ \E e \in ErrExpect(t, p, x) : e[1] = line /\ (e[2] = item \/ e[2] = "*")
 =============================================================================
